@@ -468,6 +468,47 @@ func ruleEntityActions(r *Run) {
 			}
 			nAccepted++
 			if iW < 0 {
+				// no call to a writer: the write itself may be on the path, inside looked-into glue
+				okDirect := false
+				for wi, wev := range path.Events {
+					if wev.Kind != EvAssign || len(wev.Lhs) != len(wev.Rhs) {
+						continue
+					}
+					for k, l := range wev.Lhs {
+						if _, isIdx := ast.Unparen(l).(*ast.IndexExpr); !isIdx {
+							continue
+						}
+						f, keys := r.baseField(wev.Fn, &path, wi, l)
+						if f != aiField || len(keys) != 1 {
+							continue
+						}
+						got := map[string]string{}
+						if lit, lfn := r.P.compositeOfIn(wev.Fn, wev.Rhs[k]); lit != nil {
+							for _, fld := range []string{"Id", "AssetId", "ParticipantId", "EntityId"} {
+								got[fld] = r.P.Canon(lfn, litField(lit, fld))
+							}
+						}
+						ok := len(got) == 4
+						var gl []string
+						for fld, wv := range want {
+							gl = append(gl, fld+"="+got[fld])
+							if got[fld] != wv {
+								ok = false
+							}
+						}
+						sort.Strings(gl)
+						if !strings.Contains(got["EntityId"], "call:Session.EntityByID(var:req.EntityId)#0.ID") {
+							ok = false
+						}
+						okDirect = true
+						r.CheckT("D5", af.Name+":instance", ok, wev.Pos, &path, "the new asset instance gets a fresh id from the state's generator, the request's asset id, the requester's id and the looked-up entity's id (%v entity=%s)", gl, got["EntityId"])
+					}
+				}
+				if okDirect {
+					continue
+				}
+			}
+			if iW < 0 {
 				r.CheckT("D5", af.Name+":accepted-stores", false, af.Body.Pos(), &path, "an accepted asset-instance add stores the instance in the session's odal state (no call to a function that writes State.assetInstances on this path)")
 				continue
 			}
